@@ -268,6 +268,89 @@ theorem repeat_le_tail_nonneg_small_outside_band (p : Params Float) (s : Int) (h
   · exact repeat_le_tail_nonneg_tiny_float p s hs0 (by omega) (by omega) hA hdur hfr hf hD
   · exact repeat_le_tail_nonneg_small_sharp p s hs0 hsn hn hA hdur hfr hf hD
 
+/-! ## 3b. both regimes at the level of the span start's own grid: only the sliver (iii) remains -/
+
+/-- rational core of the sharp regime with the half-ulp error `h` of the span start. -/
+theorem sharp_rat_exp (a d ps pn x S N t h : ℚ) (hd : 0 ≤ d) (hS0 : 0 ≤ S) (hS : S ≤ 1048576)
+    (hN : S + 2 ≤ N) (ht : 0 ≤ t) (hh : 0 ≤ h)
+    (hx : |x - (a + ps)| ≤ h)
+    (h2 : |ps - S * d| ≤ 1 / 9007199254740992 * |S * d| + t)
+    (h3 : |pn - N * d| ≤ 1 / 9007199254740992 * |N * d| + t)
+    (hD : h * (1 + 1 / 2147483648) + 4 * t ≤ d) :
+    x + d ≤ a + pn := by
+  have hV : 0 ≤ S * d := mul_nonneg hS0 hd
+  have hW : 0 ≤ N * d := mul_nonneg (by linarith) hd
+  rw [abs_of_nonneg hV] at h2
+  rw [abs_of_nonneg hW] at h3
+  have f1 := (abs_le.mp hx).2
+  have f2 := (abs_le.mp h2).2
+  have f3 := (abs_le.mp h3).1
+  have f4 : S * d + 2 * d ≤ N * d := by
+    have := mul_le_mul_of_nonneg_right hN hd
+    linarith
+  have f5 : S * d ≤ 1048576 * d := mul_le_mul_of_nonneg_right hS hd
+  generalize S * d = V at *
+  generalize N * d = W at *
+  linarith
+
+/-- **repeat_le_tail_nonneg_small_outside_sliver** — `0 < A`, `n ≤ 2²⁰`, finite times; let the span start
+`x = fl(A + fl(s·D))` be `m·2^e` (so `2^e` is the spacing of the doubles at `x`, `2^e / 2` half an ulp). If
+`D < 2^e / 2` (absorbed: `fl(x + D) ≤ x ≤ tail`) **or** `2^e / 2 · (1 + 2⁻³¹) + 2⁻¹⁰⁷³ ≤ D` (`x + D ≤ A + fl(n·D)` exactly, and
+the rounded sum is monotone in the exact sum), the repeat is `≤` the tail. What is missing for
+`repeat_le_tail_nonneg_small_statement`: exactly the sliver `2^e / 2 ≤ D < 2^e / 2 · (1 + 2⁻³¹) + 2⁻¹⁰⁷³` ((iii) of the header)
+— and the start `A = 0`. -/
+theorem repeat_le_tail_nonneg_small_outside_sliver (p : Params Float) (s : Int) (hs0 : 0 ≤ s)
+    (hsn : s + 2 ≤ p.spanCount) (hn : p.spanCount ≤ 2 ^ 20) (hA : 0 < toRat p.startTime)
+    (hdur : Scalar.le (0 : Float) p.spanDuration = true)
+    (hfr : (repeatEvent p s).time.isFinite = true) (hf : (tailEvent p).time.isFinite = true)
+    (m : Nat) (e : Int) (hm : 0 < m) (hu : (spanStart p s).toModel.unpack = .finite .positive m e hm)
+    (hD : toRat p.spanDuration < (2 : ℚ) ^ e / 2 ∨
+      (2 : ℚ) ^ e / 2 * (1 + (2 : ℚ) ^ (-31 : Int)) + (2 : ℚ) ^ (-1073 : Int) ≤ toRat p.spanDuration) :
+    Scalar.le (repeatEvent p s).time (tailEvent p).time = true := by
+  obtain ⟨fA, fD⟩ := startTime_finite_of_repeat p s hfr
+  have hd := toRat_nonneg _ hdur fD
+  have hfr' := hfr
+  rw [repeatEvent_time] at hfr'
+  have fS : (spanStart p s).isFinite = true := (finite_of_add_finite _ _ hfr').1
+  have hsl : s < 2 ^ 31 := by omega
+  have hnl : p.spanCount < 2 ^ 31 := by omega
+  rcases hD with hD | hD
+  · have habs := add_absorb_le_float_exp (spanStart p s) p.spanDuration m e hm hu fD hd hD hfr'
+    have h1 : Scalar.le (repeatEvent p s).time (spanStart p s) = true := by
+      rw [repeatEvent_time]; exact le_of_toRat_le _ _ hfr' fS habs
+    exact FMO.le_trans _ _ _ h1 (span_start_le_tail_float p s hs0 (by omega) hnl hdur fS hf)
+  · have hAx : toRat p.startTime ≤ toRat (spanStart p s) :=
+      toRat_le_of_le _ _ fA fS (head_le_span_start_float p s hs0 hsl hdur fS)
+    have hf' := hf
+    rw [tailEvent_time, spanStart_eq] at hf'
+    have fPn := (finite_of_add_finite _ _ hf').2
+    have fS' := fS
+    rw [spanStart_eq] at fS' hu
+    have fPs := (finite_of_add_finite _ _ fS').2
+    obtain ⟨fzs, _⟩ := finite_of_mul_finite _ _ fPs
+    obtain ⟨fzn, _⟩ := finite_of_mul_finite _ _ fPn
+    have hps0 : 0 ≤ toRat (Float.ofInt s * p.spanDuration) :=
+      toRat_nonneg _ (span_offset_nonneg_float p s hs0 hsl hdur fS) fPs
+    have hx := add_half_ulp_float _ _ hA fPs hps0 m e hm hu
+    rw [repeatEvent_time, tailEvent_time, spanStart_eq p p.spanCount]
+    refine add_le_add_of_toRat_le _ _ _ _ (by linarith) hA.ne' fD fPn ?_
+    have h2 := (mul_rnd_float _ _ fzs fD fPs).abs_add
+    have h3 := (mul_rnd_float _ _ fzn fD fPn).abs_add
+    rw [toRat_ofInt s (natAbs_lt_of_range s hs0 hsl)] at h2
+    rw [toRat_ofInt p.spanCount (natAbs_lt_of_range _ (by omega) hnl)] at h3
+    have hu53 : u₅₃ = 1 / 9007199254740992 := by norm_num
+    have h31 : (2 : ℚ) ^ (-31 : Int) = 1 / 2147483648 := by norm_num
+    rw [← four_eta, h31] at hD
+    rw [hu53] at h2 h3
+    rw [spanStart_eq]
+    have hSq : (0 : ℚ) ≤ (s : ℚ) := by exact_mod_cast hs0
+    have hSle : (s : ℚ) ≤ 1048576 := by
+      have : s ≤ 1048576 := by omega
+      exact_mod_cast this
+    have hNq : (s : ℚ) + 2 ≤ (p.spanCount : ℚ) := by exact_mod_cast hsn
+    exact sharp_rat_exp _ _ _ _ _ (s : ℚ) (p.spanCount : ℚ) _ _ hd hSq hSle hNq eta_pos.le
+      (div_pos (two_zpow_pos e) (by norm_num)).le hx h2 h3 hD
+
 /-! ## 4. instances, non-vacuity -/
 
 section Examples
@@ -323,6 +406,39 @@ example : Scalar.le (repeatEvent exH 1).time (tailEvent exH).time = true := by
   · rw [toRat_of_unpack b]; norm_num [sgnQ]
   · refine le_trans (add_le_add (le_refl _) h71) ?_
     rw [toRat_of_unpack c]; norm_num [sgnQ]
+
+/-- the hypotheses of `repeat_le_tail_nonneg_small_outside_sliver` (second alternative) hold on `exH`, `s = 1`: the span
+start is `5865234827208295·2⁻⁴⁴`, half an ulp `2⁻⁴⁵`, `D = 333.3`. -/
+example : Scalar.le (repeatEvent exH 1).time (tailEvent exH).time = true := by
+  have b : exH.startTime.toModel.unpack = .finite .positive 7205759403792794 (-56) (by decide) := by
+    have : exH.startTime = Float.ofBits 0x3FB999999999999A := by decide +kernel
+    rw [this, FM.float_unpack_ofBits _ (by decide)]; rfl
+  have c : exH.spanDuration.toModel.unpack = .finite .positive 5863475608603853 (-44) (by decide) := by
+    have : exH.spanDuration = Float.ofBits 0x4074D4CCCCCCCCCD := by decide +kernel
+    rw [this, FM.float_unpack_ofBits _ (by decide)]; rfl
+  have x : (spanStart exH 1).toModel.unpack = .finite .positive 5865234827208295 (-44) (by decide) := by
+    have : spanStart exH 1 = Float.ofBits 0x4074D66666666667 := by decide +kernel
+    rw [this, FM.float_unpack_ofBits _ (by decide)]; rfl
+  have h73 : (2 : ℚ) ^ (-1073 : Int) ≤ (2 : ℚ) ^ (0 : Int) := zpow_le_zpow_right₀ (by norm_num) (by norm_num)
+  refine repeat_le_tail_nonneg_small_outside_sliver exH 1 (by decide) (by decide) (by decide) ?_
+    exH_forms_hyps.2.2.2.2.2.2.2 exH_forms_hyps.2.1 exH_forms_hyps.2.2.1 _ _ _ x (Or.inr ?_)
+  · rw [toRat_of_unpack b]; norm_num [sgnQ]
+  · refine le_trans (add_le_add (le_refl _) h73) ?_
+    rw [toRat_of_unpack c]; norm_num [sgnQ]
+
+/-- the hypotheses of `repeat_le_tail_nonneg_tiny_float` (and the first alternative of the two combined theorems) hold on
+`wAbs`: `A = 1000 = 8796093022208000·2⁻⁴³`, `D = 2⁻⁶⁰`. -/
+example : Scalar.le (repeatEvent wAbs 2).time (tailEvent wAbs).time = true := by
+  have b : wAbs.startTime.toModel.unpack = .finite .positive 8796093022208000 (-43) (by decide) := by
+    have : wAbs.startTime = Float.ofBits 0x408F400000000000 := by decide +kernel
+    rw [this, FM.float_unpack_ofBits _ (by decide)]; rfl
+  have c : wAbs.spanDuration.toModel.unpack = .finite .positive 4503599627370496 (-112) (by decide) := by
+    have : wAbs.spanDuration = Float.ofBits 0x3C30000000000000 := by decide +kernel
+    rw [this, FM.float_unpack_ofBits _ (by decide)]; rfl
+  refine repeat_le_tail_nonneg_small_outside_band wAbs 2 (by decide) (by decide) (by decide) ?_ (by decide +kernel)
+    (by decide +kernel) (by decide +kernel) (Or.inl ?_)
+  · rw [toRat_of_unpack b]; norm_num [sgnQ]
+  · rw [toRat_of_unpack b, toRat_of_unpack c]; norm_num [sgnQ]
 
 /-- the hypotheses of `repeat_le_tail_zero_start_float` are satisfiable: start `0`, `D = 333.3`, `n = 3`. -/
 def wZero : Params Float := { exH with startTime := 0 }
